@@ -15,8 +15,8 @@ TREE = """```
      TraceBase.tla           ndjson loading, cursor l, silent-step counter, reset event, high-water acceptance, Diagnose postcondition
      PathMatch.tla PathMatch_Gen.tla Router.tla Mount.tla ErrorHandler.tla
      CtxLifecycle.tla Immutable.tla Wire.tla Negotiation.tla TrustProxy.tla Binding.tla Flash.tla
-     Limiter.tla Cache.tla Session.tla Csrf.tla Idempotency.tla MemoryLock.tla
-     ClientAssemble.tla CookieJar.tla ClientCore.tla Cors.tla EncryptCookie.tla
+     Limiter.tla Cache.tla Session.tla Csrf.tla Idempotency.tla MemoryLock.tla MemoryStore.tla
+     ClientAssemble.tla ClientBody.tla ClientKV.tla CookieJar.tla ClientCore.tla Cors.tla EncryptCookie.tla
   harness/                   ONE Go package (go 1.26; replace github.com/gofiber/fiber/v3 => /repo), built per check with -tags verif
      io.go                   case reader, result/violation/sample/summary writer
      sched.go                gate scheduler + goroutine-state probe, DFS resumable by schedule prefix, seeded random schedules (2.4)
@@ -26,7 +26,7 @@ TREE = """```
                              generic.py (generate-and-replay), cNN.py (one module per property)
   bin/check                  `bin/check C13 --tier quick|thorough [--replay f]`; bin/setup; bin/mkmanifest (regenerates MANIFEST.json);
                              bin/seedtest, bin/seedverify, bin/seedkeep, bin/seedmatrix (seeded-change tooling, section 9)
-  evidence/<id>.json  replays/<id>/<hash>.json  seeded/<id><A|B>/{patch.diff, zz_seed_demo_test.go, meta.json}  seeded/RESULTS.tsv
+  evidence/<id>.json  replays/<id>/<hash>.json  seeded/<id><A..F>/{patch.diff, zz_seed_demo_test.go, meta.json}  seeded/RESULTS.tsv
 ```
 """
 
@@ -60,14 +60,20 @@ middleware) is outside these checks.
 SEC5 = """## 5. Hooks (guard: build tag `verif`; add-only; baseline suite runs with the tag off)
 
 Almost none were needed: storages, lockers and callbacks are injectable, time is virtualised by synctest, lock waits are observed from
-outside, and the pooled context can be observed through a recycled `fasthttp.RequestCtx`. Two commits in `/repo` (listed in
-`hooks_commits.txt` and `MANIFEST.hooks.source_commits`), both add-only:
+outside, and the pooled context can be observed through a recycled `fasthttp.RequestCtx`. Three commits in `/repo` (listed in
+`hooks_commits.txt` and `MANIFEST.hooks.source_commits`), all add-only:
 
 1. `9af1af1` -- `client/verif_on.go` (`//go:build verif`: `var VerifGate = func(string, *Request) {}` and `verifGate` forwarding to it),
    `client/verif_off.go` (`//go:build !verif`: empty `verifGate`), and **one added line** `verifGate("exec.afterCAS", c.req)` in `execFunc`
    between the worker's successful compare-and-swap and its copy/send.
 2. `8e02e21` -- one added line `verifGate("exec.workerStart", c.req)` at the start of the worker goroutine (the harness maps the worker's
    goroutine to its request there, because the identity of a pooled `*Request` is not stable).
+
+3. `adbaf31` -- `internal/memory/verif_on.go` / `verif_off.go` (same pattern, `VerifGate func(string)`), **one added line**
+   `verifGate("gc.scanned")` in the memory store's garbage collector between its scan (read lock) and its sweep (write lock), and
+   `middleware/limiter/verif_on.go` (`//go:build verif` only) which lets the harness install the gate although the package is internal.
+   The C13 history replay serves requests inside that gap (a store operation made from the hook is exactly what another goroutine
+   can do there: no lock is held).
 
 A blocking `VerifGate` doubles as the scheduler gate for the `ClientCore` replay (C18). The white-box export file sketched in the design was
 not needed and does not exist. `MANIFEST.hooks.baseline_off_cmd` runs the repository's suite without `-tags`.
@@ -103,6 +109,8 @@ passes unedited after each -- the four `middleware/proxy` tests that need DNS fa
 | C14 | `ce6213b` | `StoreResponseHeaders`: a repeated origin header (`X-Multi: a`, `X-Multi: b`) was served from the cache with its last value only |
 | C18 | `def2740` `335f592` `fa3377b` | cookie jar: purge without write-back, duplicate append / ignored deletions, keys aliasing request buffers and carrying the port |
 | C18 | `ccc461a` `0c1bc9d` | cookies for `http://[2001:db8::1]:8080/` never sent to `http://[2001:db8::1]/`; cookies put into the jar by hand for a host with port / IPv6 literal never returned (found when IPv6 literal hosts were added to `CookieJar.tla`'s host pool) |
+| C18 | `6d15e73` | `AddParams(k: [b, c]); SetParams(k: a)` sent `k=a&k=c`: `SetParam`, `SetParams`, `SetFormData`, `SetFormDataWithMap` (request and client) and `Client.SetHeader` replaced only the first of several values added before, against their documentation (found when `ClientKV.tla` was added) |
+| C04 | `f401b3b` | `mount("/"){GET ""}; <a request is served>; mount("/"){use "/"}`: the second sub-app was never expanded -- the `sync.Once` guards of the mount expansion had been consumed by the first startup (found when `Mount.tla` got the `Serve` action) |
 | C18 | `fbc241a` | client timeout released a Response the worker was about to fill (`acquire answer cancel deliver`) |
 | C18 | `fd7a868` | path parameter value `a b&c=d?e` arrived cut at `?` |
 | C10 | `a7429d1` `b3a2d9c` | `Secure()` false on https; proxy listed as `2001:DB8::1` not trusted for peer `2001:db8::1` |
@@ -121,6 +129,7 @@ passes unedited after each -- the four `middleware/proxy` tests that need DNS fa
 | `C12-raw-msgpack-cookie-conforming-client` | `net/http` refuses the redirect response / its jar drops the value: a conforming client never delivers any flash message | the redirect tests read and write the cookie as raw MessagePack; a printable encoding breaks them |
 | `C12-raw-msgpack-cookie-control-bytes` | control bytes, `;`, `,`, `"`, blank, backslash from levels, lengths and values inside the cookie value, even for a byte-transparent peer | same |
 | `C07-nul-in-cookie-value` | NUL in a cookie value reaches `Set-Cookie` (`Cookie{Value:"a\\x00b"}`; every flash cookie encodes level 0 as `0x00`) | same root cause: `Cookie()` cannot strip NUL from values while the flash cookie is raw MessagePack |
+| `C18-set-reorders-other-values` | a `Set` / `Del` call on one key can swap the order in which the values of another multi-valued key are sent (`AddHeader(X-K1, a); AddHeaders(X-K2: [c, b]); SetHeader(X-K1, a)` sends `X-K2: b` before `X-K2: c`); all values arrive, each once | `Set` deletes the key first and fasthttp's `Del` moves the last entry into the freed slot: the reordering is inside the dependency; an order-preserving `Set` would have to rebuild the holder |
 | `C11-cookie-holder-single-valued` | cookie source: a slice with several elements arrives with its last element only | `client.Cookie` is a `map[string]string`; several values per name need a different exported holder type |
 """
 
@@ -159,6 +168,11 @@ none is listed as a finding and no check was loosened below what its statement s
 * **C14 (thorough tier only).** The trace specification prescribed *which* free tracking index a new heap entry gets (the smallest);
   the code re-uses indices of removed entries in its own order, and after two evictions in one request the two differ. The index is an
   internal name: traces now accept any unused index (`AnyIdx = TRUE`), the design check keeps the canonical choice as a symmetry reduction.
+* **C07 (new helper, first run).** `Redirect().WithInput()` with a 6 000-byte text put the text into the request line: the server
+  rightly answered 431 (read buffer 4 096). The driver now caps client-supplied flash text at 3 000 bytes.
+* **C14, silent truncation found while reading the heap code.** `HeapPut` chose its tracking index from `0..|Keys|`; a no-cache refresh
+  leaves the superseded entry of its key in the heap, so with small bodies the heap can hold more entries than there are keys and the
+  step was silently disabled -- TLC simply never generated such histories. The range now grows with the heap.
 * **Harness errors** (would have discredited real rejections): unlock events logged after the release were reordered against the next
   lock -> log before release, lock events after acquisition; a double `resp.Close()` put one Response into the pool twice; pooled `*Request`
   identity is unreliable -> second hook + goroutine-id mapping; a recycled `RequestCtx` needs `ResetUserValues()`; flash parsing needs
